@@ -1,1 +1,14 @@
 //! Verification facade (cfg-gated): header_ex family.  See `crate::verif`.
+
+use celestia_proto::p2p::pb::{HeaderRequest, HeaderResponse};
+use celestia_types::ExtendedHeader;
+
+use crate::p2p::HeaderExError;
+
+/// The header-ex client's response validation (`decode_and_verify_responses`).
+pub async fn decode_and_verify_responses(
+    request: &HeaderRequest,
+    responses: &[HeaderResponse],
+) -> Result<Vec<ExtendedHeader>, HeaderExError> {
+    crate::p2p::verif_header_ex::decode_and_verify_responses(request, responses).await
+}
